@@ -251,6 +251,14 @@ def find_dirs(ctx):
         ctx.ob(R, fq.split(':')[1] + '|writes-depfile-from-find_dirs', ok,
                h.node, 'the depfile is not written for the build file from '
                'find_dirs')
+        # the cache file is (re)written or removed on every run: a stale
+        # one from an earlier configuration would drive the next lazy check
+        ok = F.must(h, lambda e: e.name == 'save' and has_call(
+            e.recv(), 'FindCacheFile'), depth=1)
+        ctx.ob(R, fq.split(':')[1] + '|cache-file-always-refreshed', ok,
+               h.node, 'on some path the hook returns without saving (or '
+               'removing) .bfg_find_cache: a stale cache from an earlier '
+               'configuration decides the next lazy regeneration')
         if b == 'make':
             inc = [e for e in F.calls_to(h, 'include', depth=1)
                    if has(e.all_args(), 'depfile_name')]
